@@ -21,6 +21,11 @@ pub enum Sink {
     StdinToStdout,
     StdoutDevFull,
     DashODevFull,
+    /// `-o FILE` with the AST on stdin, while — between this invocation opening its output and receiving its input — another
+    /// invocation with the same `-o FILE` starts, is refused (malformed AST) and ends. A schedule of two processes sharing a path.
+    DashOFileWhileAnotherInvocationFails,
+    /// `-o /dev/stdout`: the output path is not a regular file
+    DashODevStdout,
 }
 
 impl Sink {
@@ -33,16 +38,18 @@ impl Sink {
             Sink::StdinToStdout => "stdin->stdout|pipe",
             Sink::StdoutDevFull => "stdout>/dev/full",
             Sink::DashODevFull => "-o /dev/full",
+            Sink::DashOFileWhileAnotherInvocationFails => "-o FILE while another invocation with the same -o FILE fails",
+            Sink::DashODevStdout => "-o /dev/stdout",
         }
     }
     fn from_name(s: &str) -> Option<Sink> {
-        [Sink::StdoutFile, Sink::StdoutPipe, Sink::DashOFile, Sink::DashODir, Sink::StdinToStdout, Sink::StdoutDevFull, Sink::DashODevFull]
+        [Sink::StdoutFile, Sink::StdoutPipe, Sink::DashOFile, Sink::DashODir, Sink::StdinToStdout, Sink::StdoutDevFull, Sink::DashODevFull, Sink::DashOFileWhileAnotherInvocationFails, Sink::DashODevStdout]
             .iter().find(|k| k.name() == s).cloned()
     }
     /// shim class of the fd the bytecode goes to
     fn class(&self) -> char {
         match self {
-            Sink::DashOFile | Sink::DashODir | Sink::DashODevFull => 'f',
+            Sink::DashOFile | Sink::DashODir | Sink::DashODevFull | Sink::DashOFileWhileAnotherInvocationFails | Sink::DashODevStdout => 'f',
             _ => 'o',
         }
     }
@@ -145,6 +152,15 @@ pub fn run_case(case: &ProcCase, prep: &Prepared) -> Ran {
             child = Child::new(case.profile, &args);
             child.stdout = Out::DevFull;
         }
+        Sink::DashODevStdout => {
+            args.extend([input, "-o", "/dev/stdout"]);
+            child = Child::new(case.profile, &args);
+            child.stdout = Out::Pipe;
+        }
+        Sink::DashOFileWhileAnotherInvocationFails => {
+            args.extend(["--input-format", "json", "-o", "of.bc"]);
+            child = Child::new(case.profile, &args);
+        }
         Sink::DashODevFull => {
             args.extend([input, "-o", "/dev/full"]);
             child = Child::new(case.profile, &args);
@@ -156,11 +172,19 @@ pub fn run_case(case: &ProcCase, prep: &Prepared) -> Ran {
         clock: None,
         junk: 0,
         budget: Some(8 * prep.reference.len() as u64 + 20_000),
+        ..Default::default()
     });
-    let result = run_child(&dir, &child);
+    let result = if case.sink == Sink::DashOFileWhileAnotherInvocationFails {
+        std::fs::write(dir.join("bad.json"), "{\"Top\": [{\"Integer\": ").unwrap();
+        let mut other = Child::new(case.profile, &["compile", "bad.json", "-o", "of.bc"]);
+        other.shim = Some(ShimCfg { seed: case.hash_seed ^ 1, ..Default::default() });
+        super::proc::run_second_while_first_waits_for_input(&dir, &child, prep.ast_json.as_bytes(), &other).0
+    } else {
+        run_child(&dir, &child)
+    };
     let produced = match case.sink {
-        Sink::StdoutFile | Sink::StdoutPipe | Sink::StdinToStdout => Some(result.stdout.clone()),
-        Sink::DashOFile => std::fs::read(dir.join("of.bc")).ok(),
+        Sink::StdoutFile | Sink::StdoutPipe | Sink::StdinToStdout | Sink::DashODevStdout => Some(result.stdout.clone()),
+        Sink::DashOFile | Sink::DashOFileWhileAnotherInvocationFails => std::fs::read(dir.join("of.bc")).ok(),
         Sink::DashODir => {
             // the derived name is the tool's business: exactly one file of the directory must be new or changed
             // (a stale file that the tool did not choose as its output is simply left alone)
@@ -297,7 +321,7 @@ fn exercise(spec: &ProgSpec, rng: &mut Rng, per_program_random: usize) -> Out1 {
     let mut cases: Vec<ProcCase> = Vec::new();
     let mk = |sink: Sink, plan: String| ProcCase { spec: spec.clone(), profile, sink, plan, stale: 0, input_name: input_name.clone(), hash_seed };
     // fault-free variants: every documented way of getting the bytes out
-    for s in [Sink::StdoutFile, Sink::StdoutPipe, Sink::DashOFile, Sink::DashODir, Sink::StdinToStdout] {
+    for s in [Sink::StdoutFile, Sink::StdoutPipe, Sink::DashOFile, Sink::DashODir, Sink::StdinToStdout, Sink::DashODevStdout, Sink::DashOFileWhileAnotherInvocationFails] {
         cases.push(mk(s, String::new()));
     }
     // durable state left by an earlier run: a longer stale file at the output path must be replaced, not overlaid
@@ -315,7 +339,7 @@ fn exercise(spec: &ProgSpec, rng: &mut Rng, per_program_random: usize) -> Out1 {
     cases.push(mk(Sink::DashODevFull, String::new()));
     // shim: per-call acceptance limits
     for _ in 0..per_program_random {
-        let sink = rng.pick(&[Sink::StdoutFile, Sink::StdoutPipe, Sink::DashOFile, Sink::DashODir]).clone();
+        let sink = rng.pick(&[Sink::StdoutFile, Sink::StdoutPipe, Sink::DashOFile, Sink::DashODir, Sink::DashOFile, Sink::DashODir, Sink::DashODevStdout]).clone();
         let cls = sink.class();
         let plan = match rng.below(8) {
             // a one-off error (EAGAIN on a non-blocking pipe, ETIMEDOUT, a passing EIO), alone or while a request is being taken piecewise
